@@ -251,7 +251,11 @@ def _norm(x):
     if isinstance(x, (list, tuple)):
         return [_norm(y) for y in x]
     if isinstance(x, np.ndarray):
+        if x.dtype == object:
+            return [_norm(y) for y in x]
         return x.tolist()
+    if isinstance(x, np.generic):
+        return x.item()
     return x
 
 
